@@ -258,6 +258,9 @@ fn enumerate(env: &Env, st: &mut Stats) -> Vec<Failure> {
 }
 
 fn replay_enumerated(case: &Value, _env: &Env) -> CaseResult {
+    for t in case["preceded_by_failing_compiles"].as_array().cloned().unwrap_or_default() {
+        replay_disturbance(t.as_str().unwrap_or(""));
+    }
     compare_accept("enumerate", case["expression"].as_str().unwrap_or("")).map(|_| ())
 }
 
